@@ -62,4 +62,93 @@ def gen_symbols(repo):
     return "\n".join(out) + "\n"
 
 
-TRANSLATORS = {"Symbols.v": gen_symbols}
+def gen_roletable(repo):
+    """every token class with the kind VSG's isinstance tests give it; roles whose text is always case-folded;
+    the committed table of optional (redundant) element roles, resolved against the live classes"""
+    import json, roletable, vlib
+
+    rows = roletable.load()
+    kinds = {"code": "RCode", "ws": "RWs", "cr": "RCr", "blank": "RBlank", "comment": "RComment", "dtext": "RDText", "prep": "RPrep", "ignore": "RIgnore", "bof": "RCode"}
+    names = {r["name"]: r["id"] for r in rows}
+    opt = json.load(open(os.path.join(vlib.VERIF, "optional_roles.json")))
+    missing = [n for n in opt["optional"] if n not in names]
+    if missing:
+        raise ValueError("optional_roles.json names unknown token classes: %r" % missing[:5])
+    fold = [r["id"] for r in rows if r["name"].endswith(".bit_value_string")]
+    out = ["From Coq Require Import List Arith NArith.", "Import ListNotations.", "Require Import Equiv.",
+           "Definition role_kind_table : list rkind := [" + "; ".join(kinds[r["kind"]] for r in rows) + "].",
+           "Definition role_kind (r : N) : rkind := nth (N.to_nat r) role_kind_table RCode.",
+           "Definition always_fold_roles : list N := [" + "; ".join("%d%%N" % x for x in fold) + "].",
+           "Definition optional_roles : list N := [" + "; ".join("%d%%N" % names[n] for n in opt["optional"]) + "].",
+           "Definition always_fold (r : N) : bool := existsb (N.eqb r) always_fold_roles.",
+           "Definition optional (r : N) : bool := existsb (N.eqb r) optional_roles.",
+           "Definition n_roles : nat := %d." % len(rows)]
+    return "\n".join(out) + "\n"
+
+
+GROUPS = ["none", "structure", "whitespace", "blank_line", "indent", "alignment", "case", "naming", "length"]
+
+
+def parse_docs(repo):
+    """docs/*_rules.rst -> {rule id: dict(phase, error, group, unfixable, disabled)}; fail closed on unknown labels"""
+    import glob, re
+
+    known = set("error warning unfixable disabled".split()) | {"phase_%d" % i for i in range(1, 8)} | set(GROUPS) | {"structure_optional", "case_keyword", "case_name", "case_label"}
+    docs = {}
+    for path in sorted(glob.glob(os.path.join(repo, "docs", "*_rules.rst"))):
+        lines = open(path).read().split("\n")
+        cur = None
+        for i, l in enumerate(lines):
+            if i + 1 < len(lines) and re.fullmatch(r"#{4,}", lines[i + 1].strip()) and re.fullmatch(r"[a-z_]+_\d{3}", l.strip()):
+                cur = l.strip()
+                docs[cur] = {"labels": []}
+                continue
+            if cur and re.match(r"^\|[a-z_0-9]+\|", l.strip()) and not docs[cur]["labels"]:
+                labs = re.findall(r"\|([a-z_0-9:]+)\|", l)
+                docs[cur]["labels"] = labs
+    out = {}
+    for rid, d in docs.items():
+        labs = [x for x in d["labels"] if not x.startswith("configuring_")]
+        for x in labs:
+            if x not in known:
+                raise ValueError("docs: unknown label |%s| at rule %s" % (x, rid))
+        ph = [int(x[6:]) for x in labs if x.startswith("phase_")]
+        grp = [x for x in labs if x in GROUPS or x == "structure_optional"]
+        out[rid] = dict(phase=ph[0] if ph else 0, error=("error" in labs), warning=("warning" in labs), group=(grp[0].replace("structure_optional", "structure") if grp else "none"),
+                        unfixable=("unfixable" in labs), disabled=("disabled" in labs), labelled=bool(labs))
+    return out
+
+
+def gen_ruledoc(repo):
+    """RuleTable + DocTable over the same list of rule ids (implemented, non-deprecated rules)"""
+    import ruletable
+
+    rows = [r for r in ruletable.load() if not r["deprecated"]]
+    docs = parse_docs(repo)
+    ids = [r["id"] for r in rows]
+    out = ["From Coq Require Import List Arith Bool.", "Import ListNotations.",
+           "(* one row per implemented rule: phase, group, fixable, disable by default, error severity *)",
+           "Record rrow := mkrrow { rr_phase : nat; rr_group : nat; rr_fixable : bool; rr_disabled : bool; rr_error : bool; rr_documented : bool }."]
+
+    def b(x):
+        return "true" if x else "false"
+
+    code, doc = [], []
+    for r in rows:
+        g = r["groups"][0] if r["groups"] else "none"
+        if g not in GROUPS:
+            raise ValueError("rule %s: unknown group %r" % (r["id"], g))
+        code.append("mkrrow %d %d %s %s %s true" % (r["phase"] or 0, GROUPS.index(g), b(r["fixable"] and r["overrides_fix"]), b(r["disable"]), b(r["sev_type"] == "error")))
+        d = docs.get(r["id"])
+        if d is None or not d["labelled"]:
+            doc.append("mkrrow 0 0 false false false false")
+        else:
+            doc.append("mkrrow %d %d %s %s %s true" % (d["phase"], GROUPS.index(d["group"]), b(not d["unfixable"]), b(d["disabled"]), b(d["error"])))
+    out.append("Definition rule_rows : list rrow := [" + ";\n ".join(code) + "].")
+    out.append("Definition doc_rows : list rrow := [" + ";\n ".join(doc) + "].")
+    out.append("Definition n_rules : nat := %d." % len(rows))
+    out.append("(* rule ids in row order: " + " ".join(ids[:5]) + " ... *)")
+    return "\n".join(out) + "\n"
+
+
+TRANSLATORS = {"Symbols.v": gen_symbols, "RoleTable.v": gen_roletable, "RuleDoc.v": gen_ruledoc}
